@@ -759,8 +759,8 @@ func init() {
 	vk.Register(&vk.Spec{
 		ID:    "C18",
 		Level: "exploration",
-		Rule: "TCP: authenticated plaintexts with every class of address-type byte, zero-length/255-byte/binary/zoned-literal domains, header truncations, length fields with reserved bits, floods of empty chunks, 1 MiB garbage, client/target RSTs at every stage, listener shutdown mid-handshake and mid-relay, 8 hostile connections in parallel, canary exchange after each; " +
-			"UDP: hostile client datagrams (address-type bytes, domains, truncations, empty plaintext, largest datagram, multicast/broadcast destinations) on fresh and live associations, target replies of 0..65507 bytes around the packing boundaries from IPv4, IPv6 and zoned link-local sources, association churn against lookups; then goroutine/fd audit and shutdown ordering; class = (proto, input class, cipher|source|size)",
+		Rule: "TCP: authenticated plaintexts with every class of address-type byte, zero-length/255-byte/binary/zoned-literal domains, header truncations, length fields with reserved bits, floods of empty chunks, 1 MiB garbage, client/target RSTs at every stage, listener shutdown mid-handshake and mid-relay, 8 hostile connections in parallel, bursts of 11..22 failing accepts (EMFILE), canary exchange after each; " +
+			"UDP: hostile client datagrams (address-type bytes, domains, truncations, empty plaintext, largest datagram, multicast/broadcast destinations, destination port 0) on fresh and live associations, target replies of 0..65507 bytes around the packing boundaries from IPv4, IPv6 and zoned link-local sources, a write to the target socket straddling the expiry of its association (H2), association churn against lookups; then goroutine/fd audit and shutdown ordering; class = (proto, input class, cipher|source|size)",
 		Assumptions: []string{"recovered panics count as violations (captured through the default slog handler)", "a crash of the child process is reported by the driver with the last case logged before execution"},
 		Batches:     func(t string) int { return map[string]int{"quick": 4, "thorough": 16}[t] },
 		Parallel:    func(t string) int { return 4 },
